@@ -4,7 +4,7 @@
     protocol.StreamID arithmetic), tied to /repo by the correspondence check of unit streamsmap. *)
 From Coq Require Import List ZArith Bool.
 From V Require Import Gen.Params StreamsMap.Model StreamsMap.ProofsIn StreamsMap.ProofsOut StreamsMap.ProofsTop.
-From V Require Import StreamsMap.AcceptWake StreamsMap.ProofsWake.
+From V Require Import StreamsMap.AcceptWake StreamsMap.ProofsWake StreamsMap.RunGlue StreamsMap.ProofsGlue.
 Import ListNotations.
 Open Scope Z_scope.
 
@@ -319,3 +319,23 @@ Example C15_reset_stream_at_regression :
                       [OTransportParams 3 3 false; OOpen false; OOpen true; OTransportParams 3 3 true])) = [0; 2].
 Proof. vm_compute. split; reflexivity. Qed.
 Print Assumptions C15_reset_stream_at_regression.
+
+(** * Connection glue (handleFrames in front of the streams map, unit streamsglue)
+    In the packet-level model that is replayed against real connections with and without a qlog
+    tracer, the first failing frame decides the packet: the verdict (= the connection's close
+    error) and the state do not depend on the frames behind it. *)
+Theorem C15_packet_first_error_decides : forall pre s s1 f o s2 e fr rest rest',
+  handle_packet s pre = (s1, None) -> gframe_op f = Some o -> tstep s1 o = (s2, RErr e, fr) ->
+  handle_packet s (pre ++ f :: rest) = (s2, Some e) /\
+  handle_packet s (pre ++ f :: rest) = handle_packet s (pre ++ f :: rest').
+Proof.
+  intros. split; [eapply handle_packet_first_error; eauto|eapply handle_packet_rest_irrelevant; eauto].
+Qed.
+Print Assumptions C15_packet_first_error_decides.
+
+Example C15_packet_example :
+  snd (handle_packet (init_sm false 2 2) [GStream 8; GStream 0]) = Some ErrLimit /\
+  snd (handle_packet (init_sm false 2 2) [GPing; GStopSending 2; GStream 0; GStream 4]) = Some ErrState /\
+  i_nextOpen (s_ib (fst (handle_packet (init_sm false 2 2) [GStream 8; GStream 0]))) = 0.
+Proof. vm_compute. repeat split; reflexivity. Qed.
+Print Assumptions C15_packet_example.
